@@ -3,6 +3,7 @@ package vh
 import (
 	"bytes"
 	"fmt"
+	"path/filepath"
 	"sort"
 	"strings"
 	"sync"
@@ -322,6 +323,52 @@ func (r *EngineRunner) concStress(clients, opsPer, nkeys int, seed uint64, withM
 	for i := range keys {
 		keys[i] = []byte(fmt.Sprintf("ck%02d", i))
 	}
+	// C13 under concurrency: with SyncStrategy Always every Put / Delete that has returned is flushed.  The file
+	// hook (called before the operation it announces) numbers the writes; a sync announced on a file covers
+	// the writes announced on that file before it.  When a client's call returns, the write it made must be covered.
+	var syncMu sync.Mutex
+	var wseq int64
+	lastWrite := map[int64][2]interface{}{} // goroutine -> (file, seq) of the write made during its current call
+	covered := map[string]int64{}           // file -> highest write number covered by a sync announced on it
+	always := r.opts.SyncStrategy == kv.Always
+	if always {
+		fio.VerifEvent = func(kind string, path string, data []byte, n int64) {
+			if kind != "write" && kind != "sync" {
+				return
+			}
+			g := goid()
+			syncMu.Lock()
+			if kind == "write" {
+				wseq++
+				lastWrite[g] = [2]interface{}{path, wseq}
+			} else {
+				covered[path] = wseq
+			}
+			syncMu.Unlock()
+		}
+	}
+	beginCall := func() {
+		if always {
+			g := goid()
+			syncMu.Lock()
+			delete(lastWrite, g)
+			syncMu.Unlock()
+		}
+	}
+	endCall := func(what string) {
+		if always {
+			g := goid()
+			syncMu.Lock()
+			if w, ok := lastWrite[g]; ok {
+				if covered[w[0].(string)] < w[1].(int64) {
+					syncMu.Unlock()
+					r.failSync("C13", "SyncStrategy Always, concurrent writers: %s returned although no flush of %s was issued after its write (write %d, flushes cover up to %d)", what, filepath.Base(w[0].(string)), w[1].(int64), covered[w[0].(string)])
+					return
+				}
+			}
+			syncMu.Unlock()
+		}
+	}
 	var panics int32
 	// a population of keys that nobody writes during the run (the index holds many entries per shard): every
 	// client reads them in between and must always find exactly the value they were given
@@ -352,7 +399,9 @@ func (r *EngineRunner) concStress(clients, opsPer, nkeys int, seed uint64, withM
 					h.kind = 'p'
 					h.val = fmt.Sprintf("v%d.%d", c, i)
 					h.inv = atomic.AddInt64(&clock, 1)
+					beginCall()
 					err := r.db.Put(k, []byte(h.val))
+					endCall("Put")
 					h.ret = atomic.AddInt64(&clock, 1)
 					if err != nil {
 						r.failSync("C09", "Put failed under concurrency: %v", err)
@@ -360,7 +409,9 @@ func (r *EngineRunner) concStress(clients, opsPer, nkeys int, seed uint64, withM
 				case x < 6:
 					h.kind = 'd'
 					h.inv = atomic.AddInt64(&clock, 1)
+					beginCall()
 					err := r.db.Delete(k)
+					endCall("Delete")
 					h.ret = atomic.AddInt64(&clock, 1)
 					if err != nil {
 						r.failSync("C09", "Delete of a key returned an error under concurrency: %v", err)
@@ -689,7 +740,6 @@ func (r *EngineRunner) concMix(clients, opsPer int, seed uint64) string {
 	}
 	return fmt.Sprintf("done # calls=%d", atomic.LoadInt64(&calls))
 }
-
 
 // concBackground (C09): the directory (closed) is opened with EnableBackgroundMerge, a few clients write and
 // read for the given number of milliseconds (the background goroutine looks at the database once per second),
